@@ -8,7 +8,7 @@
    DESIGN.md. *)
 From stdpp Require Import base list option numbers.
 From Incr.Model Require Import Base Live Engine Api.
-From Incr.Proofs Require Import Pres Safe RchInv FrameRchInv FrameNoHeapPanic RchMin FrameRchMin Histories.
+From Incr.Proofs Require Import Pres Safe RchInv FrameRchInv FrameNoHeapPanic RchMin FrameRchMin Histories Edges.
 
 (* [rch_inv s]: a node occurs in queue h of the recompute heap exactly when its
    height_in_recompute_heap cell says h (so a cell of -1 means "in no queue"), and no queue lists a
@@ -51,6 +51,54 @@ Theorem C11_heap_counter_and_lower_bound_in_every_history :
     Forall (fun e => rch_inv e.2 /\ rch_extra e.2) (run_history fuel max_height true ops).
 Proof. exact history_rch_extra. Qed.
 
+(* ---- the edge arrays, operation by operation.
+   [link s c i p ci]: in s, entry i of c's parents vector is p, c's my_child_index_in_parent_at_index[i] is ci
+   (not negative), and p's my_parent_index_in_child_at_index[ci] is i — the edge c -> p (p's ci-th child) is
+   recorded on both ends with matching indices. *)
+
+(* add_parent records the edge on both ends and disturbs no other link (the slot (p, ci) is the one it takes) *)
+Theorem C11_add_parent_links_both_ends :
+  forall s c ci p cn pn,
+    c <> p -> nodes s !! c = Some cn -> nodes s !! p = Some pn -> (0 <= ci)%Z ->
+    exists s', add_parent c ci p s = (Ok tt, s')
+      /\ link s' c (length (n_parents cn)) p ci
+      /\ forall c' i' p' ci', link s c' i' p' ci' -> (p', ci') <> (p, ci) -> link s' c' i' p' ci'.
+Proof. exact add_parent_spec. Qed.
+
+(* remove_parent on the last entry of the child's parents vector: the link is gone, every other link stays *)
+Theorem C11_remove_parent_last_entry :
+  forall s c i p ci cn,
+    nodes s !! c = Some cn -> link s c i p ci -> c <> p -> i = (length (n_parents cn) - 1)%nat ->
+    exists s', remove_parent c ci p s = (Ok tt, s')
+      /\ (forall i', ~ link s' c i' p ci)
+      /\ forall c' i' p' ci', link s c' i' p' ci' -> (c', i') <> (c, i) -> (p', ci') <> (p, ci) -> link s' c' i' p' ci'.
+Proof. exact remove_parent_last_spec. Qed.
+
+(* remove_parent on an inner entry (swap_remove): the link is gone, the last entry moves into the hole and its
+   parent's index is fixed up, every other link stays where it was *)
+Theorem C11_remove_parent_inner_entry :
+  forall s c i p ci cn end_p eci en,
+    nodes s !! c = Some cn -> link s c i p ci -> c <> p ->
+    (i < length (n_parents cn) - 1)%nat ->
+    link s c (length (n_parents cn) - 1) end_p eci -> nodes s !! end_p = Some en -> n_live en = true -> end_p <> c ->
+    exists s', remove_parent c ci p s = (Ok tt, s')
+      /\ (forall i', ~ link s' c i' p ci)
+      /\ link s' c i end_p eci
+      /\ forall c' i' p' ci', link s c' i' p' ci' -> (c', i') <> (c, i) -> (c', i') <> (c, (length (n_parents cn) - 1)%nat) ->
+           (p', ci') <> (p, ci) -> (p', ci') <> (end_p, eci) -> link s' c' i' p' ci'.
+Proof. exact remove_parent_moved_spec. Qed.
+
+(* non-vacuity of the premises: after observing a map over two variables and stabilising, both edges are links *)
+Example C11_links_exist :
+  let h := [OpVar 1; OpVar 2; OpMap 1 [] [0%nat; 1%nat]; OpObserve 2; OpStabilise] in
+  match stdpp.list.last (run_history 100 128 true h) with
+  | Some (_, _, s) => link s 0 0 2 0 /\ link s 1 0 2 1
+  | None => False
+  end.
+Proof.
+  vm_compute. split; (eexists _, _; split_and!; [reflexivity|reflexivity|reflexivity|reflexivity|done|reflexivity]).
+Qed.
+
 (* non-vacuity: a history that inserts, removes, pops and re-heights heap entries, one op panicking *)
 Example C11_nonvacuous :
   let h := [OpVar 1; OpMap 2 [] [0%nat]; OpMap 2 [EPanic] [1%nat]; OpObserve 1; OpStabilise; OpSet 0 3; OpObserve 2;
@@ -66,3 +114,6 @@ Print Assumptions C11_fresh_state_is_consistent.
 Print Assumptions C11_recompute_heap_consistent_in_every_history.
 Print Assumptions C11_heap_counter_and_lower_bound_along_every_history.
 Print Assumptions C11_heap_counter_and_lower_bound_in_every_history.
+Print Assumptions C11_add_parent_links_both_ends.
+Print Assumptions C11_remove_parent_last_entry.
+Print Assumptions C11_remove_parent_inner_entry.
